@@ -100,7 +100,7 @@ def run_tlc(module, cfg_text=None, cfg_file=None, workers=None, timeout=600, env
                 if f.endswith(".tla"):
                     shutil.copy(os.path.join(sd, f), d)
     for f in extra_files:
-        shutil.copy(f, d)
+        shutil.copy(f, d)  # generated modules override the defaults
     cfgp = os.path.join(d, module + ".cfg")
     if cfg_text is not None:
         open(cfgp, "w").write(cfg_text)
@@ -198,7 +198,10 @@ def cfg(init="Init", next="Next", spec=None, constants=None, invariants=(), prop
     if constants:
         out.append("CONSTANTS")
         for k, v in constants.items():
-            out.append("  %s = %s" % (k, tla(v)))
+            if isinstance(v, Sub):
+                out.append("  %s <- %s" % (k, v.name))
+            else:
+                out.append("  %s = %s" % (k, tla(v)))
     for i in invariants:
         out.append("INVARIANT %s" % i)
     for i in properties:
@@ -215,6 +218,17 @@ def cfg(init="Init", next="Next", spec=None, constants=None, invariants=(), prop
     return "\n".join(out) + "\n"
 
 
+class SetOfSets:
+    def __init__(self, sets):
+        self.sets = sets
+
+
+class Sub:
+    """cfg substitution  Const <- OperatorDefinedInTheModel  (sequences/records cannot be written in a cfg)."""
+    def __init__(self, name):
+        self.name = name
+
+
 def tla(v):
     """Python value -> TLA+ constant expression usable in a cfg file."""
     if isinstance(v, bool):
@@ -225,6 +239,8 @@ def tla(v):
         return '"%s"' % v
     if isinstance(v, (set, frozenset)):
         return "{" + ", ".join(sorted(tla(x) for x in v)) + "}"
+    if isinstance(v, SetOfSets):
+        return "{" + ", ".join(tla(set(x)) for x in v.sets) + "}"
     if isinstance(v, (list, tuple)):
         return "<<" + ", ".join(tla(x) for x in v) + ">>"
     raise ValueError(v)
@@ -406,13 +422,19 @@ class Check:
         else:
             self.violations.append((desc, case))
 
-    def absorb(self, summary, family):
-        """Take a harness summary {cases, compared, mismatches:[{desc, case}], samples} into the check."""
+    def absorb(self, summary, family, only=None):
+        """Take a harness summary {cases, compared, mismatches:[{desc, case}], samples} into the check.
+
+        only: set of aspects this property is about; other mismatches are counted in the evidence
+        (they belong to another property's check) but do not decide this property."""
         self.evaluations += summary.get("cases", 0)
         self.traces += summary.get("cases", 0)
         for m in summary.get("mismatches", []):
             d = m.get("desc", {})
             d.setdefault("family", family)
+            if only is not None and d.get("aspect") not in only:
+                self.extra["mismatches_of_other_properties"] = self.extra.get("mismatches_of_other_properties", 0) + 1
+                continue
             self.violation(d, dict(family=family, case=m.get("case")))
         extra = summary.get("mismatch_count", 0) - len(summary.get("mismatches", []))
         if extra > 0:
